@@ -59,6 +59,16 @@ CHECKS = {
              "parity with 0-3 operands, and .even/.odd/.align m for every m in 1..64 at every residue.",
         note="Trusted: Python codecs for utf-8/koi8-r/latin-1/cp866; for bk only ASCII, U+0080-9F and KOI8 letters (rest is C14).",
         design="4/C06"),
+    "C09": dict(
+        category="exploration",
+        technique="Hypothesis programs assembled at three bases: metamorphic relocation law plus differential against the reference assembler",
+        text="Each generated program (address-aliasing constants, label differences, relative and absolute self-references, includes, "
+             "late .link) is assembled at three bases including ones whose addresses pass 0o177777. The law is asserted on pdpy11's own "
+             "images: a word differs between two bases iff the reference marks it as an absolute address word, then by exactly the base "
+             "difference; everything else is byte-identical. Each image is also compared with the reference, which predicts the bases "
+             "that must be refused because an address word would exceed 16 bits.",
+        note="Trusted: vf/model.py (affine base tracking). Bases are multiples of 0o100 so that padding does not depend on the base.",
+        design="4/C09"),
     "C12": dict(
         category="exploration",
         technique="Hypothesis link-expression programs, differential against a reference assembler with affine base tracking",
